@@ -26,6 +26,8 @@ THEOREMS = [
     "RedunModel.C38.subrun_never_single",
     "RedunModel.C38.subrun_full_check_runs_again",
     "RedunModel.C38.subrun_shallow_replays_ultimate",
+    "RedunModel.C38.no_cache_run_only_cse",
+    "RedunModel.C38.no_cache_run_restarts_subrun",
 ]
 TRUSTED = [
     "task library and Python semantics as in C01; the three database look-ups behind check_cache are inputs of the lookup model "
@@ -61,6 +63,8 @@ TECHNIQUE = "Lean 4 proof of observational equivalence on the big-step model + d
 FUEL = 120
 CPU_BUDGET_QUICK, CPU_BUDGET_THOROUGH = 6.0, 300.0       # seconds of process CPU for the generated stream (not wall clock)
 SUBRUN_TASK = "redun.subrun_root_task"
+DIRECT_ALWAYS = ("tree", "leaf-error", "containers", "two-errors", "in-task")
+TWO_EXECUTIONS = ("call", "tree", "leaf-error", "deep-error", "map", "in-task", "nested-subrun")
 
 
 def corpus():
@@ -205,7 +209,8 @@ def check_rows(ctx, case, ne, jobs, execs):
     return "checked"
 
 
-def one_config(ctx, G, R, C12, name, e, sx, outs_e, has_unk_e, direct, ne, cache, check_valid, pending, executor="default"):
+def one_config(ctx, G, R, C12, name, e, sx, outs_e, has_unk_e, direct, ne, cache, check_valid, pending, executor="default",
+               executions=(1, 2)):
     from redun.scheduler import subrun
     box = Box(R)
     try:
@@ -213,7 +218,7 @@ def one_config(ctx, G, R, C12, name, e, sx, outs_e, has_unk_e, direct, ne, cache
         counters, outcomes, probes = [], [], []
         tag = {"new_execution": ne, "cache": cache, "check_valid": check_valid or "default", "executor": executor}
         case = {"program": name, "expr": sx, **tag}
-        for k in (1, 2):
+        for k in executions:
             sched = box.scheduler()
             cnt = {}
             count_submissions(sched, cnt)
@@ -264,6 +269,11 @@ def one_config(ctx, G, R, C12, name, e, sx, outs_e, has_unk_e, direct, ne, cache
                 ctx.violation(bad, "subrun(e) does not give what evaluating e gives", case=c2,
                               expected={"direct": G.show(direct), "model": sorted(map(G.show, outs_e))}, actual=G.show(o))
         # second execution: is the sub-scheduler started again?
+        if len(counters) < 2:
+            ctx.case(key=None if R.is_trivial(sx) else (sx, ne, cache, check_valid, executor),
+                     sample={"program": name, "expr": sx[:300], "direct": G.show(direct)[:150], "subrun": G.show(outcomes[0])[:150], **tag},
+                     outcome=outcomes[0][0], same_as_direct=(outcomes[0] == direct), **{k: str(v) for k, v in tag.items()})
+            return
         again = counters[1].get(SUBRUN_TASK, 0)
         ctx.count("second-execution", "%s cache=%s ne=%s: subrun_root_task %s" % (check_valid or "shallow", cache, ne,
                                                                                    "started again" if again else "not started"))
@@ -286,16 +296,147 @@ def run_program(ctx, G, R, C12, name, e, sx, rep_e, rep_sub, configs, pending):
             ctx.mismatch("the model's outcome set of subrun(e) differs from that of e (contradicts subrun_equiv)",
                          case={"program": name, "expr": sx, "new_execution": ne}, model=rep[:300], impl=rep_e[:300],
                          signature="C38-model-self-check")
-    box = Box(R)
-    try:
-        direct, _ = R.run_free(R.clone(e), sched=box.scheduler(), timeout=60)
-    finally:
-        box.close()
+    if ctx.tier == "quick" and len(outs_e) == 1 and not has_unk_e and name not in DIRECT_ALWAYS:
+        # quick tier: where the model determines the outcome, it stands in for the direct run (their agreement is C01's tie;
+        # the thorough tier and the corpus entries in DIRECT_ALWAYS run e directly as well)
+        direct = next(iter(outs_e))
+        ctx.count("direct-run", "model outcome used")
+    else:
+        box = Box(R)
+        try:
+            direct, _ = R.run_free(R.clone(e), sched=box.scheduler(), timeout=60)
+        finally:
+            box.close()
+        ctx.count("direct-run", "executed")
     if direct not in outs_e and not has_unk_e:
         ctx.mismatch("direct run is not among the model's outcomes (C01 correspondence)", case={"program": name, "expr": sx},
                      model=sorted(map(G.show, outs_e)), impl=G.show(direct), signature="C38-direct-run-differs-from-model")
     for ne, cache, cv, ex in configs:
-        one_config(ctx, G, R, C12, name, e, sx, outs_e, has_unk_e, direct, ne, cache, cv, pending, executor=ex)
+        execs = (1,) if (ctx.tier == "quick" and name not in TWO_EXECUTIONS) else (1, 2)
+        one_config(ctx, G, R, C12, name, e, sx, outs_e, has_unk_e, direct, ne, cache, cv, pending, executor=ex, executions=execs)
+
+
+# ------------------------------------------------------------------------------------------------ no-cache histories
+class ExecLog:
+    """every task function executed by any scheduler of this process in thread mode (outer and sub-schedulers):
+    redun.executors.local.exec_task is looked up by name at submit time, so wrapping the module attribute sees them all"""
+
+    def __init__(self):
+        import redun.executors.local as local
+        self.local = local
+        self.real = local.exec_task
+        self.calls = []
+
+        def exec_task(mode, module_name, task_fullname, args, kwargs):
+            self.calls.append((task_fullname, repr(args), repr(sorted(kwargs.items()))))
+            return self.real(mode, module_name, task_fullname, args, kwargs)
+
+        local.exec_task = exec_task
+
+    def take(self):
+        out = sorted(c for c in self.calls if c[0] not in (SUBRUN_TASK, "redun.root_task"))
+        del self.calls[:]
+        return out
+
+    def close(self):
+        self.local.exec_task = self.real
+
+
+def nocache_corpus():
+    from props import _evallib as L
+    return {
+        "nc-call": L.inc(1),
+        "nc-tree": L.add(L.inc(1), b=L.twice(3)),
+        "nc-list": [L.inc(1), L.total(L.mklist(3))],
+        "nc-recursion": L.rsum(2),
+    }
+
+
+def nocache_case(ctx, G, R, C12, log, name, e, sx, rep, ne, cache2, check_valid, pending):
+    """history: execution 1 with the cache on, execution 2 with cache=cache2, on one backend, a new Scheduler each time;
+    once directly and once through subrun(e).  Execution 2 must return the same value AND execute the same multiset of task
+    calls (of the sub-workflow) in both: a no-cache run re-executes everything, a cached run nothing."""
+    from redun.scheduler import subrun
+    outs, has_unk = G.parse_outs(rep)
+    if has_unk or len(outs) != 1 or next(iter(outs))[0] != "ok":
+        return
+    mk = subrun.options(check_valid=check_valid) if check_valid else subrun
+    case = {"program": name, "expr": sx, "nocache_case": True, "new_execution": ne, "second_run_cache": cache2,
+            "check_valid": check_valid or "default"}
+    res = {}
+    for how in ("direct", "subrun"):
+        box = Box(R)
+        try:
+            runs = []
+            for k, cache in ((1, True), (2, cache2)):
+                sched = box.scheduler()
+                probe = C12.Probe(sched)
+                expr = R.clone(e) if how == "direct" else mk(R.clone(e), executor="default", new_execution=ne)
+                log.take()
+                o, _ = R.run_free(expr, sched=sched, timeout=90, cache=cache)
+                probe.restore()
+                runs.append((o, log.take(), probe.log))
+            res[how] = runs
+        finally:
+            box.close()
+    for k in (0, 1):
+        if res["subrun"][k][0] not in outs:
+            ctx.violation("C38-result-differs", "subrun(e) does not give what evaluating e gives", case=dict(case, execution=k + 1),
+                          expected=sorted(map(G.show, outs)), actual=G.show(res["subrun"][k][0]))
+    d2, s2 = res["direct"][1][1], res["subrun"][1][1]
+    if d2 != s2:
+        sig = "C38-no-cache-run-replays-subrun" if (not cache2 and not s2) else "C38-second-execution-runs-other-tasks"
+        ctx.violation(sig, "execution 2 (cache=%s) executes other task calls through subrun than directly: %s" %
+                      (cache2, "the sub-scheduler was not started, the recorded subrun result was replayed" if not s2 else
+                       "different multiset"), case=dict(case, execution=2),
+                      expected={"direct executes": [c[0] for c in d2]}, actual={"subrun executes": [c[0] for c in s2]},
+                      kind="history")
+    # lookup model: in a no-cache run every lookup is made with scope CSE
+    for rec in res["subrun"][1][2] + res["direct"][1][2]:
+        if "scope" not in rec:
+            continue
+        line = "(runscope %s backend)" % C12.b(cache2)
+        if not cache2:
+            pending.append((name, sx, [line], [("run scope", rec, rec["scope"])]))
+            if rec["scope"] == "backend":
+                ctx.violation("C38-no-cache-run-backend-lookup", "a job of a no-cache run looked up the backend cache (scope BACKEND)",
+                              case=dict(case, execution=2, task=rec["task"]), expected="cse", actual=rec["scope"], kind="history")
+    ctx.case(key=("nocache", sx, ne, cache2, check_valid), mode="no-cache-history", second_run_cache=str(cache2),
+             executed_in_second=min(len(s2), 3), new_execution=str(ne),
+             sample={"program": name, "expr": sx[:200], "second_run_cache": cache2, "direct_exec2": [c[0] for c in d2][:6],
+                     "subrun_exec2": [c[0] for c in s2][:6]})
+
+
+def nocache_section(ctx, G, R, C12, base, pending):
+    progs = [(n, e, G.to_sx(e)) for n, e in nocache_corpus().items()]
+    for i in range(ctx.n(1, 40)):
+        prng = random.Random(base * 11 + i)
+        gen = G.Gen(prng, p_err=0.0, max_fan=2)
+        for _ in range(30):
+            try:
+                e = gen.program(2)
+                sx = G.to_sx(e)
+                if "fork" not in sx and "(S " not in sx:
+                    progs.append(("n%d" % i, e, sx))
+                    break
+            except G.Unsupported:
+                pass
+    if ctx.tier == "quick":
+        progs = [p for p in progs if p[0] in ("nc-tree", "nc-list")]
+    replies = ctx.model("C01", ["(eval i%d %s)" % (FUEL, sx) for _, _, sx in progs])
+    log = ExecLog()
+    try:
+        for i, ((name, e, sx), rep) in enumerate(zip(progs, replies)):
+            ne = i % 2 == 1
+            nocache_case(ctx, G, R, C12, log, name, e, sx, rep, ne, False, None, pending)          # the no-cache run
+            if i == 0:
+                nocache_case(ctx, G, R, C12, log, name, e, sx, rep, ne, True, None, pending)       # control: cached run
+            if ctx.tier != "quick":
+                nocache_case(ctx, G, R, C12, log, name, e, sx, rep, not ne, False, None, pending)
+                nocache_case(ctx, G, R, C12, log, name, e, sx, rep, ne, True, "full", pending)
+                nocache_case(ctx, G, R, C12, log, name, e, sx, rep, ne, False, "full", pending)
+    finally:
+        log.close()
 
 
 # ------------------------------------------------------------------------------------------------ context forwarding
@@ -486,6 +627,7 @@ def run(ctx):
             if i % 10 == 0:
                 cfgs.append((rng.random() < 0.5, True, None, "process"))
         run_program(ctx, G, R, C12, name, e, sx, rep_e, {False: rep_f, True: rep_t}, cfgs, pending)
+    nocache_section(ctx, G, R, C12, base, pending)
     C12.flush_lookups(ctx, pending)
     context_section(ctx, G, R, base)
 
@@ -500,6 +642,18 @@ def replay(ctx, case):
         return run(ctx)
     e = G.from_sx(sx)
     sx2 = G.to_sx(e)
+    if c.get("nocache_case"):
+        rep = ctx.model("C01", ["(eval i%d %s)" % (FUEL, sx2)])[0]
+        print("replay program:", sx2[:400])
+        log = ExecLog()
+        pending = []
+        try:
+            cv = c.get("check_valid")
+            nocache_case(ctx, G, R, C12, log, c.get("program", "replay"), e, sx2, rep, bool(c.get("new_execution")),
+                         bool(c.get("second_run_cache")), None if cv in (None, "default") else cv, pending)
+        finally:
+            log.close()
+        return C12.flush_lookups(ctx, pending)
     if c.get("context_case"):
         cfg, runc, ov = c.get("config_context") or {}, c.get("run_context") or {}, c.get("update_context") or {}
         eff = dict(cfg)
